@@ -106,6 +106,15 @@ MUTANTS = [
     ('warnings-not-scoped', 'C18', R,
      "        with warnings.catch_warnings():\n            if self.warnings:",
      "        if True:\n            if self.warnings:"),
+    ('thread-snapshot-only-once', 'C19', R,
+     "        self._threads = threadsupport.enumerate()\n        self._start_time = time.time()\n\n        self._setUpStdStreams()",
+     "        if not hasattr(self, '_threads'):\n            self._threads = threadsupport.enumerate()\n        self._start_time = time.time()\n\n        self._setUpStdStreams()"),
+    ('ignore-pattern-search', 'C19', R,
+     "                if not any([re.match(p, t.name)",
+     "                if not any([re.search(p, t.name)"),
+    ('proxy-eq-by-name', 'C19', TS,
+     "        return self.thread is other.thread",
+     "        return self.thread.name == other.thread.name"),
     ('stop-only-on-errors', 'C16', R,
      "            failure_or_error = None\n", "            failure_or_error = None\n"),
 ]
@@ -129,7 +138,8 @@ def main():
                 ok = False
                 continue
             open(fp, 'w').write(s.replace(old, new, 1))
-            env = dict(os.environ, VERIF_REPO=scratch)
+            env = dict(os.environ, VERIF_REPO=scratch,
+                       VERIF_REPLAY_DIR=os.path.join(scratch, 'replays'))
             p = subprocess.run([os.path.join(HERE, 'check'), prop, '--seeds', '600',
                                 '--no-evidence', '--no-minimise', '--seconds', '60'],
                                env=env, capture_output=True, text=True, cwd=HERE)
@@ -140,6 +150,13 @@ def main():
             if p.returncode != 1:
                 ok = False
                 print(p.stdout[-600:], p.stderr[-600:])
+            else:
+                # keep one killing spec per mutant as a regression seed
+                rd = os.path.join(scratch, 'replays')
+                dst = os.path.join(HERE, 'corpus', '%s-mutant-%s.json' % (prop, name))
+                if os.path.isdir(rd) and os.listdir(rd) and not os.path.exists(dst):
+                    os.makedirs(os.path.dirname(dst), exist_ok=True)
+                    shutil.copy(os.path.join(rd, sorted(os.listdir(rd))[0]), dst)
         finally:
             shutil.rmtree(scratch, ignore_errors=True)
     return 0 if ok else 1
